@@ -165,6 +165,33 @@ def fingerprint(ops, d):
     return hashlib.sha1(what.encode()).hexdigest()[:12]
 
 
+def pre_lean(repo, lean):
+    """regenerate lean/TboxModel/C09/GenTables.lean (level letters, colour codes) from modules/base/log_impl.cpp"""
+    src = open(os.path.join(repo, 'modules/base/log_impl.cpp'), encoding='utf-8').read()
+    src = re.sub(r'//[^\n]*', '', src)
+    m1 = re.search(r'LOG_LEVEL_LEVEL_CODE\s*\[[^\]]*\]\s*=\s*\{([^}]*)\}', src)
+    m2 = re.search(r'LOG_LEVEL_COLOR_CODE\s*\[[^\]]*\]\s*=\s*\{([^}]*)\}', src)
+    if not m1 or not m2:
+        raise RuntimeError('level/colour tables not found in log_impl.cpp')
+    letters = re.findall(r"'(.)'", m1.group(1))
+    colours = re.findall(r'"([^"]*)"', m2.group(1))
+    if not letters or not colours:
+        raise RuntimeError('level/colour tables are empty')
+    body = ('/- GENERATED by props/C09/plugin.py pre_lean from modules/base/log_impl.cpp on every run — do not edit. -/\n'
+            'namespace Tbox.C09\n\n'
+            '/-- LOG_LEVEL_LEVEL_CODE -/\n'
+            'def genLevelCodes : List UInt8 := [%s]\n\n'
+            '/-- LOG_LEVEL_COLOR_CODE (the SGR parameters between ESC[ and m) -/\n'
+            'def genColorCodes : List (List UInt8) := [%s]\n\n'
+            'end Tbox.C09\n') % (', '.join(str(ord(c)) for c in letters),
+                                  ', '.join('[' + ', '.join(str(b) for b in c.encode()) + ']' for c in colours))
+    path = os.path.join(lean, 'TboxModel/C09/GenTables.lean')
+    old = open(path).read() if os.path.exists(path) else None
+    if old != body:
+        with open(path, 'w') as fh:
+            fh.write(body)
+
+
 def check(tier, seed, replay=None):
     P = types.SimpleNamespace(**{k: v for k, v in globals().items() if k != 'check'})
     try:
